@@ -280,6 +280,24 @@ func runC03(r *core.Run) {
 		s.Transitions.Store(s.Evals.Load())
 		s.Done()
 	}
+	// long payloads of every length in every sink (buffers, chunked escaping, multi-byte sequences at chunk borders)
+	lengthSub(r, "lengths/all+attr+autoid+xhtml", core.MustCfg("all+attr+autoid+xhtml"), core.Pick(r, 600, 2200), func(s *core.Sub, cv *core.Conv, w []byte) { c03Case(s, cv, w, "lengths") })
+	// every byte value in every sink
+	{
+		var docs [][]byte
+		for _, ctx := range sinkContexts {
+			for b := 0; b < 256; b++ {
+				c := string([]byte{byte(b)})
+				for _, pay := range []string{c, "a" + c + "b", c + c, c + "\"", "&" + c, c + ";"} {
+					docs = append(docs, []byte(strings.ReplaceAll(ctx.tmpl, "§", pay)))
+				}
+			}
+		}
+		for _, cn := range []string{"all+cjk+attr+autoid", "all+attr+autoid+xhtml+explicit"} {
+			docsSub(r, "byte-sweep/"+cn, fmt.Sprintf("each of %d sink templates with § replaced by every byte value 0..255 alone, between letters, doubled, before a quote, behind an ampersand and before a semicolon, under %s: same oracle", len(sinkContexts), cn),
+				core.MustCfg(cn), docs, func(s *core.Sub, cv *core.Conv, w []byte) { c03Case(s, cv, w, "byte-sweep") })
+		}
+	}
 	// every ASCII byte inside, before and behind an attribute name and value
 	{
 		var docs [][]byte
